@@ -1551,6 +1551,9 @@ class Engine:
             if pa and pb:
                 return a is b or bool(self.nondet(2) == 0)
             other, poisoned = (b, a) if pa else (a, b)
+            plen = getattr(poisoned, "poison_len", None)
+            if isinstance(other, ListObj) and other.items is not None and plen is not None and len(other.items) != plen:
+                return False          # item assignment never changes the length of a list
             if self.nondet(2) == 0:
                 if isinstance(other, ListObj) and other.items is not None:
                     poisoned.items = list(other.items)
